@@ -33,6 +33,9 @@ func spellings(id, pair string) (string, string) {
 	if pair == "later" {
 		return id + "+", id + "-or-later"
 	}
+	if pair == "onlyplus" { // "X" replaced by "X-only" inside the term "X+"
+		return id + "+", id + "-only+"
+	}
 	return id, id + "-only"
 }
 
@@ -233,8 +236,9 @@ func runC08(c *Ctx, phase string) {
 			}
 			c.Inc("ids_with_cross_contexts")
 		}
-		for _, pair := range []string{"later", "only"} {
-			if (pair == "later" && !laterOK) || (pair == "only" && !onlyOK) {
+		onlyPlusOK := onlyOK && c.Valid(id+"+") && c.Valid(id+"-only+")
+		for _, pair := range []string{"later", "only", "onlyplus"} {
+			if (pair == "later" && !laterOK) || (pair == "only" && !onlyOK) || (pair == "onlyplus" && !onlyPlusOK) {
 				c.Inc("pairs_skipped_one_spelling_invalid")
 				continue
 			}
